@@ -161,12 +161,12 @@ def consume_c02(ctx, lines, results):
 
 
 # ---------------------------------------------------------------------------------- code -> spec
-def random_traces(ctx, count, depth, tag, prop):
+def random_traces(ctx, count, depth, tag, prop, objects=False):
     """Seeded random driver beyond the enumerated universe; its trace lines are judged by SchemaTrace.tla.
     Returns (#lines accepted, list of (line, verdict) for rejected lines)."""
     shards = 12
     per = max(1, count // shards)
-    cases = [dict(fam="rand", seed=ctx.seed * 100003 + i, count=per, depth=depth) for i in range(shards)]
+    cases = [dict(fam="rand", seed=ctx.seed * 100003 + i, count=per, depth=depth, objects=objects) for i in range(shards)]
     path = os.path.join(ctx.tmp, "rand-%s.ndjson" % tag)
     common.write_ndjson(path, cases)
     results = run_driver(ctx, path, "rand-" + tag, jobs=shards)
